@@ -330,6 +330,10 @@ def runReal (args : List String) : String :=
   let n := Wire.natArg args 0
   let k := Wire.natArg args 1
   let fails := Wire.natArg args 2 != 0
+  -- k = 0: the server closes the body iterable before it asked for a first chunk.  `__call__` and `render_stream`
+  -- are generator functions: closing a generator that was never started runs none of its code (Python's rule, see
+  -- Model/StreamWsgi.lean) - no relay was submitted, the producer was never touched
+  if k = 0 then s!"{if fails then "end" else "ret"} closed=0 left=0 over=0 del=-" else
   let s := fairRun wsgiVariant k (20 * (n + 4)) (winit n fails)
   if s.cpc = .done then
     let left := if s.rpc.finished then 0 else 1
